@@ -161,14 +161,16 @@ def regress_items():
 
 def differential(ctx, n_prog, cfgs, salt="gen", features=None):
     t0 = time.time()
-    items, stats = D.generate(ctx, salt, n_prog, features=features, ncalls=8)
+    items, stats = D.generate(ctx, salt, n_prog, features=features, ncalls=8 if ctx.tier == "thorough" else 5)
     reg = regress_items()
     for it, m in zip(reg, H.model_eval([(r["prog"], r["calls"]) for r in reg], "c01reg")):
         it["model"] = m
     items = reg + items
     stats["regression_programs"] = [r["name"] for r in reg]
     t_gen = time.time() - t0
-    obs = D.observe_all(items, cfgs, procs=3)
+    if ctx.tier == "quick":
+        D.sample_configs(items, cfgs, 4, salt=ctx.seed)
+    obs = D.observe_all(items, cfgs, procs=4)
     n_cmp = 0
     n_calls = 0
     rejected = {}
@@ -178,7 +180,7 @@ def differential(ctx, n_prog, cfgs, salt="gen", features=None):
     for i, it in enumerate(items):
         failing = []
         for j, cfg in enumerate(cfgs):
-            if not D.cfg_applicable(it["prog"], cfg):
+            if not D.cfg_applicable(it["prog"], cfg) or (i, j) not in obs:
                 continue
             st, o = obs[(i, j)]
             if st == "exc":
@@ -217,7 +219,7 @@ def part_expr_tie(ctx):
     from vlib import coqrun
     from vlib.common import COQ
     rng = ctx.rng("exprtie")
-    want = 150 if ctx.tier == "quick" else 800
+    want = 60 if ctx.tier == "quick" else 800
     ok, stats, bad = [], {"none": 0, "rejected": 0, "shape_mismatch": 0}, []
     tries = 0
     while len(ok) < want and tries < want * 4:
@@ -236,7 +238,9 @@ def part_expr_tie(ctx):
         ctx.violation("correspondence-broken", "the real front end emits IR of a shape ExprCompile.compile does not produce",
                       {"source": s["src"], "error": s["error"], "real_ir": s.get("ir", "")[:1500]})
     (COQ / "C01" / "GenExprTie.v").write_text(T.render(ok))
-    b = ctx.coq_build(["C01/ExprCompile.v", "C01/ExprCompileProofs.v", "C01/ExprBridge.v", "C01/GenExprTie.v", "C01/PropsExpr.v"])
+    c03 = ["C03/LIR.v", "C03/ArithSpec.v", "C03/WordArith.v", "C03/TypeLemmas.v", "C03/ArithModel.v", "C03/LegacyExact.v", "C03/TieBase.v"]
+    b = ctx.coq_build_cached(["C01/ExprCompile.v", "C01/ExprCompileProofs.v", "C01/ExprBridge.v", "C01/GenExprTie.v", "C01/PropsExpr.v"],
+                             deps=c03 + ["C01/VyCore.v"])
     if not b["ok"]:
         located = None
         if "PropsExpr" in b.get("file", "") and (COQ / "C01" / "GenExprTie.vo").exists():
@@ -268,7 +272,7 @@ def run(ctx):
     from vlib.c01_replay import replay
     if replay(ctx):
         return
-    b = ctx.coq_build(COQ_FILES)
+    b = ctx.coq_build_cached(COQ_FILES)
     if not b["ok"]:
         ctx.violation("theorem-broken", f"{b.get('failed_lemma')} in {b['file']}",
                       {"theorem": b.get("failed_lemma"), "file": b["file"], "coq_output": b["out"][-1500:]})
@@ -276,7 +280,7 @@ def run(ctx):
             return
     n_tie = part_expr_tie(ctx)
     cfgs = configs(ctx.tier)
-    n = 60 if ctx.tier == "quick" else 300
+    n = 24 if ctx.tier == "quick" else 300
     items, stats = differential(ctx, n, cfgs)
     ctx.corr["generator"] = stats
     ctx.corr["configs"] = [c.name for c in cfgs]
